@@ -139,8 +139,8 @@ PROPERTIES = {
         'note': 'decides fn_graph\'s use of daggy (update_edge vs add_edge, argument order, kinds); daggy\'s reachability is trusted.',
     },
     'C18': {
-        'quick': ['rankv_fwd_n3', 'rank_fwd_n4'],
-        'thorough': ['rankv_n2', 'rankv_fwd_n3', 'rankv_n3', 'rank_n4', 'rank_fwd_n4'],
+        'quick': ['rankc_fwd_n3', 'rank_fwd_n4'],
+        'thorough': ['rankv_n2', 'rankc_fwd_n3', 'rankc_n3', 'rankv_fwd_n3', 'rankv_n3', 'rank_n4', 'rank_fwd_n4'],
         'functions': ['RankCalc::calc with the verif_hooks pop counter'],
         'bounds': {'graphs': 'symbolic as for C13; n = 3 (all ordered pairs) and n = 4 (forward pairs; thorough: all ordered pairs)', 'unwind': 'n = 3: n*n+2 = 11, so that every run in which no function is popped more than n times runs to the assertion; n = 4: 2^(n-1)+2 = 10 (what the current algorithm needs; a change that needs more is reported as inconclusive, not as held)'},
         'outside': ['n >= 5: the smallest size at which walking every path exceeds n visits per function (2^(n-2) = 8 > 5) exhausts the solver memory here (2.0 M program steps, > 30 GB); see DESIGN.md C18', 'work of the other build stages'],
